@@ -190,7 +190,7 @@ def rand_cores(rng, d, cplx, maxdim=3, maxrank=3, vec=False, square=False, r0=1,
     return cores
 
 
-def candidates(rng, objs, dead, opaque):
+def candidates(rng, objs, dead, opaque, factors=()):
     """All calls the documented preconditions admit on the current real objects (mirrors the guards
     of spec/TTPool.tla; the spec re-checks them: a trace with an inadmissible call is not consumed)."""
     out = []
@@ -269,6 +269,10 @@ def candidates(rng, objs, dead, opaque):
         t = objs[i]
         a = i + 1
         d = t.order
+        # factors of TT.svd: the model carries a bound for their open boundary rank, not its value, so whether such a
+        # factor happens to be closed (numerical rank 1) is not known to the specification: no sweeps on them
+        if i in factors:
+            continue
         if t.ranks[0] == 1 and t.ranks[-1] == 1:
             if d >= 2:
                 s_ = rng.randint(0, d - 2)
@@ -289,7 +293,7 @@ def random_history(tt_mod, rng, nsteps):
     TT = tt_mod.TT
     obsv = Observer()
     objs, events = [], []
-    dead, opaque = set(), set()
+    dead, opaque, factors = set(), set(), set()
     d = rng.randint(1, 4)
     cplx = rng.random() < 0.4
     vec = rng.random() < 0.5
@@ -305,7 +309,7 @@ def random_history(tt_mod, rng, nsteps):
         objs.append(TT(P.core_arrays(cores)))
         events.append(dict(op='New', cores=cores, obs=obsv.observe(objs)))
     for _ in range(nsteps):
-        cands = candidates(rng, objs, dead, opaque)
+        cands = candidates(rng, objs, dead, opaque, factors)
         if not cands:
             break
         # prefer in-place calls after producers now and then
@@ -324,6 +328,8 @@ def random_history(tt_mod, rng, nsteps):
                 dead.add(ev['a'] - 1)
             for k in range(len(new)):
                 opaque.add(len(objs) + k)
+                if ev['op'] == 'Svd':
+                    factors.add(len(objs) + k)
         if ev['op'] == 'OrthoTrunc':
             opaque.add(ev['a'] - 1)      # conservatively: the driver does not build on truncated values
         objs.extend(new)
